@@ -150,18 +150,24 @@ def run(rng, tier, model_ok):
     stats["multi_expression_queries"] = len(multi)
     # several results of one query that use the same fact, and several queries appending to the descriptions of the same run: every
     # lookup is reported, in evaluation order, however often the phrase has been reported before
-    rep_items = []
+    rep_items = []          # (query, the phrases each result looks up, result by result)
     for _ in range(25 if tier == "quick" else 300):
         a, b = rng.choice(facts2), rng.choice(facts2)
-        rep_items += [("(%s) (%s)" % (a, a), [a, a]), ("(%s) (%s) (%s)" % (a, b, a), [a, b, a]), ("(%s) (2 * %s)" % (a, a), [a, a]),
-                      ("(%s * 2) (%s / %s)" % (a, b, a), [a, b, a]), ("(%s) (%s) (%s) (%s)" % (b, a, a, b), [b, a, a, b]),
-                      ("(%s / %s) (%s)" % (a, a, a), [a, a, a])]
+        rep_items += [("(%s) (%s)" % (a, a), [[a], [a]]), ("(%s) (%s) (%s)" % (a, b, a), [[a], [b], [a]]), ("(%s) (2 * %s)" % (a, a), [[a], [a]]),
+                      ("(%s * 2) (%s / %s)" % (a, b, a), [[a], [b, a]]), ("(%s) (%s) (%s) (%s)" % (b, a, a, b), [[b], [a], [a], [b]]),
+                      ("(%s / %s) (%s)" % (a, a, a), [[a, a], [a]])]
     rrep = vlib.run_impl(["Q %s d" % vlib.hx(q) for q, _ in rep_items])
     for (q, want), r in zip(rep_items, rrep):
         res = r.get("results") or []
         got = [d["phrase"] for d in r.get("desc", [])]
-        if res and all("ok" in x for x in res) and got != want:
-            failures.append({"input": q, "why": "the looked-up phrases in evaluation order are %s, the descriptions report %s" % (want, got)})
+        # results are evaluated in order; inside one result the order of the operands' evaluation is the evaluator's own (C18's
+        # theorems fix it in the model, the correspondence compares it): here every lookup must be there, result by result
+        ok, pos = True, 0
+        for part in want:
+            ok = ok and sorted(got[pos:pos + len(part)]) == sorted(part)
+            pos += len(part)
+        if res and all("ok" in x for x in res) and not (ok and pos == len(got)):
+            failures.append({"input": q, "why": "the phrases looked up, result by result, are %s; the descriptions report %s" % (want, got)})
     stats["repeated_fact_queries"] = len(rep_items)
     _, _, rcases = qcorr.build_cases([q for q, _ in rep_items], describe=True)
     cases_on = cases_on + rcases
